@@ -31,8 +31,8 @@ Fixpoint session (V : verifier) (st : N * bytes) (cs : list call) : Prop :=
 Definition pairs (cs : list call) : list (N * bytes) :=
   flat_map (fun c => [(c_src c, c_salh c); (c_tgt c, c_talh c)]) cs.
 
-(* the FULL statement of session consistency for a hash H (refuted for verify_dual_proof — on
-   headers with lagging binary linking; before /repo commit d34d669 also on headers as the store
+(* the FULL statement of session consistency for a hash H (refuted for verify_dual_proof on headers
+   with lagging binary linking; before /repo commits d34d669 and c59ab5b also on headers as the store
    emits them; see Refuted.v):
 
      forall st cs, session (V H) st cs ->
@@ -44,22 +44,22 @@ Definition pairs (cs : list call) : list (N * bytes) :=
    (dual_proof_no_fork) — sessions against servers whose states all come from well-formed histories
    are consistent.
 
-   REFUTED as well (Proofs/Refuted.v session_consistency_v2_refuted and
-   session_consistency_v1_overlong_refuted, ordinary non-lagging headers): the statement for
-   verify_dual_proof_v2 and the statement for verify_dual_proof restricted to BlTxID = ID - 1.  Cause:
-   against a root that is not known to be the root of a genuine tree of the claimed size,
-   verify_inclusion is not position-exact — it demands (i-1)>>len = (j-1)>>len but accepts any number of
-   further terms (and verify_last_inclusion checks no length), so one root commits to two leaves at
-   one position (i, j) through proofs of different lengths.
-   What would make the statements provable (not the case for the code as it stands):
-     (U) uniqueness against ONE unknown root: two accepted inclusion proofs for the same (i, j) and
-         root carry the same leaf or exhibit a collision. It holds as soon as the proof length is a
-         function of (i, j) (then both proofs hash along the same directions; induction over the
-         terms with nodeh_inj) — the repair proposed in fixes/C01-ahtree-inclusion-length.diff;
+   PROVED against an arbitrary server (Proofs/Unique.v): (U) two accepted inclusion (or last
+   inclusion) proofs for the same position against ONE unknown root carry the same leaf — the proof
+   length is a function of (i, j) since /repo commit c59ab5b; before it, over-long proofs refuted the
+   statement for verify_dual_proof_v2 and for verify_dual_proof on ordinary headers (Proofs/Refuted.v
+   family D, now rejected) — and hence READ-READ consistency: two accepted calls with the same source
+   id against one target state carry the same source Alh (dual_proof_same_target_unique,
+   dual_proof_v2_same_target_unique).
+
+   STILL OPEN for the full statement (pairs accepted under DIFFERENT states of one session):
      (T) transport across a state advance: an accepted consistency proof from (m, R) to (n, R')
-         carries every (i, leaf) provable against (m, R) to one provable against (n, R'). This needs
-         verify_consistency to be exact in the old SIZE, which it is not (C08 known finding:
-         VerifyConsistency([R2],1,2,R2,R2) accepts), again a proof-length test. *)
+         must carry every (i, leaf) provable against (m, R) to one provable against (n, R'). This
+         needs verify_consistency to be exact in the old SIZE against unknown roots, which it is not
+         (C08 known finding: VerifyConsistency([R2],1,2,R2,R2) accepts) — a proof-length test like the
+         one of c59ab5b. For verify_dual_proof the statement is moreover REFUTED on lagging headers
+         (source.BlTxID < target.BlTxID < sourceTxID: session_consistency_v1_refuted), where part of
+         the target tree is related to the source by nothing at all. *)
 
 (* VerifyDualProofV2 as a verifier of calls (the V2 proof carries the two headers, the inclusion and
    the consistency terms only) *)
